@@ -8,6 +8,7 @@ import itertools
 import re
 import sys
 import threading
+import time as _time
 
 from vt import ow
 from vt import runrt
@@ -54,6 +55,13 @@ EXTRA_COVERAGE = {
 REPORT_A = [('err', b'3 0 0\n')]
 REPORT_B = [('err', b'2 1 1\n'), ('err', b'failB (m.T.failB)\nerrB (m.T.errB)\n')]
 REPORT_C = [('err', b'1 1 0\nfailC (m.T.failC)\n')]
+
+
+def _one_cpu_filter(case):
+    return case[0] in ('worlds', 'shuffle', 'bigworld') and (case[0] != 'worlds' or case[1] in ('A2B1i', 'U1A2'))
+
+
+ENV_PASSES = [{'name': 'one usable CPU', 'argv': [], 'env': {'VT_ONE_CPU': '1', 'VT_NPROC': '2'}, 'filter': _one_cpu_filter}]
 
 
 def script(tag, report, dots=True, tail=False, wait=None):
@@ -313,6 +321,7 @@ def explore(cfg, collect):
     sample = None
     interleaved = 0
     nsteps_eager = [0]
+    nslow = [0]
     finish_orders = set()
 
     def V(clause, detail, choices):
@@ -334,6 +343,7 @@ def explore(cfg, collect):
         pruned = False
         fin = []
         eager_here = 0
+        t_exec = _time.time()
         try:
             # the root thread is parked before its first instruction; give it
             # the baton once so that it reaches its first scheduling point
@@ -447,6 +457,19 @@ def explore(cfg, collect):
                 if len({n for n in names[-6:] if n.startswith('C')}) > 1:
                     interleaved += 1
             maxdepth = max(maxdepth, len(choices))
+        except S.StepTimeout as e:
+            V('busy_loop_without_scheduling_point', 'thread %s was running for %.0f s of real time without reaching a sleep, join, pipe or spawn operation (the poll loop never yields)' % (e, S.STEP_TIMEOUT), names)
+            del stack[:]
+        else:
+            if _time.time() - t_exec > 1.0:
+                nslow[0] += 1
+            if nslow[0] >= 3:
+                # every blocking operation of the runner is owned by the
+                # scheduler; an execution of a few dozen steps that takes this
+                # long in real time waits on something else (a timed queue get,
+                # a real sleep): the parent does not get back to its scheduling
+                V('parent_blocks_in_real_time', 'three executions took more than 1 s of real time each (typically 0.01 s; the last one %.1f s)' % (_time.time() - t_exec), names)
+                del stack[:]          # every further execution would be as slow
         finally:
             s.abort()
             ex.finish()
